@@ -3,5 +3,6 @@ CONSTANTS
   A = 4
   Depth = 0
   Mode = "F"
+  Fixed = FALSE
 POSTCONDITION TraceAccepted
 CHECK_DEADLOCK FALSE
